@@ -34,6 +34,7 @@ type psWorld struct {
 	tmo  bool
 
 	unsubDone chan struct{}
+	clones    map[int]*chans.PubSub[int]
 }
 
 func (w *psWorld) log(e M) {
@@ -100,7 +101,7 @@ func (w *psWorld) drainNow() {
 func drivePubSub(plan []M, out *Out, _ []string) {
 	for si, sc := range plan {
 		out.Journal(M{"ev": "begin", "plan": si})
-		w := &psWorld{out: out, subs: map[int]<-chan int{}, ret: map[int]chan struct{}{}, tmo: boolean(sc, "timeout")}
+		w := &psWorld{out: out, subs: map[int]<-chan int{}, ret: map[int]chan struct{}{}, tmo: boolean(sc, "timeout"), clones: map[int]*chans.PubSub[int]{}}
 		w.ps = &chans.PubSub[int]{}
 		if w.tmo {
 			w.ps.PubTimeoutAfter = 40 * time.Millisecond
@@ -123,7 +124,9 @@ func drivePubSub(plan []M, out *Out, _ []string) {
 					vals = append(vals, id*10+i)
 				}
 				ps := w.ps
-				if only != 0 {
+				if via := num(st, "via"); via != 0 {
+					ps = w.clones[via] // a WithOnly clone made earlier (it may outlive the subscription)
+				} else if only != 0 {
 					ps = w.ps.WithOnly(w.subs[only])
 				}
 				done := make(chan struct{})
@@ -143,6 +146,10 @@ func drivePubSub(plan []M, out *Out, _ []string) {
 						ps.PubSync(vals[0])
 					case "PubSliceSync":
 						ps.PubSliceSync(vals)
+					}
+					// the caller owns its slice again once the call has returned: reuse it
+					for i := range vals {
+						vals[i] = -7
 					}
 					w.log(M{"ev": "pub_ret", "id": id})
 					close(done)
@@ -168,6 +175,8 @@ func drivePubSub(plan []M, out *Out, _ []string) {
 				case <-time.After(1500 * time.Millisecond):
 					w.log(M{"ev": "recv_none", "c": c})
 				}
+			case "withonly":
+				w.clones[num(st, "w")] = w.ps.WithOnly(w.subs[num(st, "c")])
 			case "unsub_async":
 				// Unsub on its own goroutine (it has to wait for a Sync publish that holds the read lock)
 				c := num(st, "c")
